@@ -1,8 +1,10 @@
 """C26 oracle pieces: materialise a spec into Pony classes, a reference expectation computed from the spec alone,
 catalog readers (SQLite PRAGMAs / a small DDL tokenizer+parser for the other dialects), and the comparison.
 
-Nothing here reads Pony's schema objects.  Pony is consulted only to LOCATE names: Entity._table_, Attribute.columns,
-Set.table, Set.reverse_columns (all public, documented mapping options echoed back).  What the columns must look like
+Nothing here reads Pony's schema objects.  Pony is consulted only to LOCATE DEFAULT names: Entity._table_, Attribute.columns,
+Set.table, Set.reverse_columns (all public, documented mapping options echoed back).  A name the declarations spell out
+(_table_, column(s)=, table=, reverse_column(s)=, index='..' / fk_name= of a to-one attribute) is taken from the SPEC: it has to
+be used exactly as declared, and the catalog is looked up under the declared name.  What the columns must look like
 (how many, nullability, pk, unique, index, fk structure) is derived from the spec by the reference rules below.
 """
 import os, re, sys, json, sqlite3, datetime, decimal, uuid
@@ -787,11 +789,42 @@ def compare(ref, classes, cat, dialect):
     def pattr(ename, aname):
         return getattr(classes[ename], aname)
 
+    def declared_cols(a):
+        if a is None:
+            return None
+        o = a['opts']
+        if 'columns' in o:
+            return list(o['columns'])
+        if 'column' in o:
+            return [o['column']]
+        return None
+
     def cols_of(ename, aname):
-        return list(pattr(ename, aname).columns or [])
+        """column names of a non-collection attribute: as DECLARED when the spec names them (pony's echo must agree), else as
+        pony reports its defaults"""
+        reported = list(pattr(ename, aname).columns or [])
+        a = ref.attr(ename, aname)
+        decl = declared_cols(a) if (a is not None and a['cls'] != 'Set') else None
+        if decl is not None:
+            if reported != decl and (ename, aname) not in renamed:
+                renamed.add((ename, aname))
+                out.append(('explicit-name:column', '%s.%s declares column(s) %r but pony maps it to %r' % (ename, aname, decl, reported)))
+            return decl
+        return reported
 
     def table_of(ename):
-        return _tkey(classes[ename]._table_, dialect)
+        root = ref.root(ename)
+        reported = _tkey(classes[root]._table_, dialect)
+        decl = ref.ents[root]['table']
+        if decl is not None:
+            decl = _tkey(decl, dialect)
+            if reported != decl and root not in renamed:
+                renamed.add(root)
+                out.append(('explicit-name:table', 'entity %s declares _table_ = %r but pony maps it to table %r' % (root, decl, reported)))
+            return decl
+        return reported
+
+    renamed = set()
 
     def pk_cols(ename):
         root = ref.root(ename)
@@ -802,6 +835,7 @@ def compare(ref, classes, cat, dialect):
 
     tables = {_tkey(k, dialect): v for k, v in cat['tables'].items()}
     expected_tables = {}
+    named_indexes, named_fks = [], []     # (table, cols, declared name, label)
     exp_fks = []          # (child table, cols, parent table, parent cols, declared cascade True/False/None, label, index opt)
 
     for root in ref.roots():
@@ -861,6 +895,10 @@ def compare(ref, classes, cat, dialect):
                     out.append(('columns:shared', 'column %r of %s is used by both %s and %s'
                                 % (cn, label, exp_cols[cn][0], what)))
                 exp_cols[cn] = (what, nn, in_pk)
+            if a is not None and isinstance(a['opts'].get('index'), str):
+                named_indexes.append((tname, tuple(located), a['opts']['index'], what))
+            if a is not None and a['type'].startswith('E:') and isinstance(a['opts'].get('fk_name'), str):
+                named_fks.append((tname, tuple(located), a['opts']['fk_name'], what))
             if a is not None and a['type'].startswith('E:'):
                 rn, r = ref.reverse_of(m, a)
                 casc = r['opts'].get('cascade_delete') if r is not a else None
@@ -918,10 +956,19 @@ def compare(ref, classes, cat, dialect):
             A, B = pattr(ename, a['name']), pattr(rn, r['name'])
             tname = _tkey(A.table, dialect)
             what = '%s.%s <-> %s.%s' % (ename, a['name'], rn, r['name'])
-            label = 'link table %r of %s' % (tname, what)
             if tname is None or _tkey(B.table, dialect) != tname:
                 out.append(('m2m:table', '%s: the two ends name different tables %r / %r' % (what, A.table, B.table)))
                 continue
+            decl_tables = [_tkey(x['opts']['table'], dialect) for x in (a, r) if x['opts'].get('table') is not None]
+            if decl_tables:
+                if len(set(decl_tables)) > 1:
+                    out.append(('explicit-name:m2m-table', '%s: the two ends declare different tables %r but the mapping was accepted'
+                                % (what, decl_tables)))
+                if tname != decl_tables[0]:
+                    out.append(('explicit-name:m2m-table', '%s declares table=%r but pony created the link table as %r'
+                                % (what, decl_tables[0], tname)))
+                tname = decl_tables[0]
+            label = 'link table %r of %s' % (tname, what)
             if tname in expected_tables:
                 out.append(('tables:shared', '%s is also used by %s' % (label, expected_tables[tname])))
                 continue
@@ -933,9 +980,18 @@ def compare(ref, classes, cat, dialect):
             if r is a:      # symmetric
                 cols_to_owner = list(A.columns or [])
                 cols_to_other = list(A.reverse_columns or [])
+                declared = [(declared_cols(a), cols_to_owner, 'column(s)')]
+                rc = a['opts'].get('reverse_columns') or ([a['opts']['reverse_column']] if 'reverse_column' in a['opts'] else None)
+                declared.append((list(rc) if rc else None, cols_to_other, 'reverse_column(s)'))
             else:
                 cols_to_other = list(A.columns or [])       # reference the entity contained in the Set `a` (= rn)
                 cols_to_owner = list(B.columns or [])       # reference the owner of `a` (= ename)
+                declared = [(declared_cols(a), cols_to_other, '%s.%s column(s)' % (ename, a['name'])),
+                            (declared_cols(r), cols_to_owner, '%s.%s column(s)' % (rn, r['name']))]
+            for decl, reported, which in declared:
+                if decl is not None and decl != reported:
+                    out.append(('explicit-name:column', '%s: %s declared as %r but pony maps them to %r' % (label, which, decl, reported)))
+                    reported[:] = decl
             w_owner, w_other = ref.pk_width(ename), ref.pk_width(rn)
             if len(cols_to_owner) != w_owner or len(cols_to_other) != w_other:
                 out.append(('columns:count', '%s should have %d + %d columns, pony reports %r + %r'
@@ -984,6 +1040,25 @@ def compare(ref, classes, cat, dialect):
         if casc is False and fk['on_delete'] == 'CASCADE':
             out.append(('fk:on-delete', 'cascade_delete=False is declared for the reverse of %s but its foreign key says ON DELETE CASCADE'
                         % (what,)))
+
+    # -- explicit index= / fk_name= names of basic and to-one attributes are used as declared
+    for (tname, cols, nm_, what) in named_indexes:
+        tab = tables.get(tname)
+        if tab is None:
+            continue
+        exact = [i for i in tab['indexes'] + tab['uniques'] if tuple(i['cols']) == cols]
+        if exact and not any(i['name'] == nm_ for i in exact):
+            out.append(('explicit-name:index', '%s declares index=%r but the index on %r of table %r is named %r'
+                        % (what, nm_, cols, tname, [i['name'] for i in exact])))
+    if dialect != 'sqlite':                      # SQLite foreign keys are anonymous
+        for (tname, cols, nm_, what) in named_fks:
+            tab = tables.get(tname)
+            if tab is None:
+                continue
+            exact = [f for f in tab['fks'] if tuple(f['cols']) == cols]
+            if exact and not any(f['name'] == nm_ for f in exact):
+                out.append(('explicit-name:fk', '%s declares fk_name=%r but the foreign key on %r of table %r is named %r'
+                            % (what, nm_, cols, tname, [f['name'] for f in exact])))
 
     # -- indexes: declared ones exist; every other index is the automatic index of a foreign key (index != False)
     for tname, rec in expected_tables.items():
